@@ -36,6 +36,13 @@ def run_variant(patch, props):
         shutil.rmtree(scratch, ignore_errors=True)
 
 
+def meta_missed(d):
+    try:
+        return json.load(open(os.path.join(d, "meta.json"))).get("missed_reason")
+    except (OSError, ValueError):
+        return None
+
+
 def main():
     args = sys.argv[1:]
     jobs = 4
@@ -61,6 +68,9 @@ def main():
                 det = json.load(open(os.path.join(d, "meta.json"))).get("detected_by", {})
             except (OSError, ValueError):
                 det = {}
+            if not det and meta_missed(d):
+                print("known-miss %-27s %s" % (name, meta_missed(d)[:120]))
+                continue
             work.append(("seed", name, os.path.join(d, "patch.diff"), sorted(det), det))
     bad = 0
     with ThreadPoolExecutor(max_workers=jobs) as ex:
